@@ -143,7 +143,7 @@ def run(ctx):
     res.floor("R16.2", "bash add_command", len(ac), 1)
     for b in ac:
         recs = b.calls_to(r"bash::all_subcommands::add_command$")
-        res.floor("R16.2", "recursive add_command call", len(recs), 1)
+        require(fx, res, "R16.2", "bash-recurses-into-subcommands", b, r"bash::all_subcommands::add_command$", len(recs), 1, "bash all_subcommands::add_command no longer recurses: nested subcommands get no completion function")
         for c in recs:
             t = strflow_tree(fx, b, c.args[0])
             okm = has_replace(t, "-", "__")
